@@ -75,9 +75,10 @@ Ltac classify c :=
 Ltac use_refines HR :=
   unfold Refines in HR; cbn in HR;
   match type of HR with
-  | _ /\ _ /\ _ /\ _ /\ _ =>
+  | _ /\ _ /\ _ /\ _ /\ _ /\ _ =>
       let Hp1 := fresh "Hp1" in let Hp2 := fresh "Hp2" in let Hl := fresh "Hl" in
-      destruct HR as (-> & -> & Hp1 & Hp2 & Hl)
+      let Hl2 := fresh "Hl2" in
+      destruct HR as (-> & -> & Hp1 & Hp2 & Hl & Hl2)
   | _ /\ _ /\ _ /\ _ => destruct HR as (-> & -> & -> & ->)
   end.
 
